@@ -315,6 +315,7 @@ MIRI_THOROUGH = {"C01": 4.0, "C02": 8.0, "C05": 2.0, "C09": 4.0, "C11": 4.0, "C1
 ASAN_THOROUGH = {"C01": 20.0, "C02": 20.0, "C05": 10.0, "C07": 10.0, "C08": 10.0, "C09": 20.0, "C11": 20.0, "C12": 10.0, "C13": 20.0, "C18": 20.0}
 TSAN_THOROUGH = {"C19": 1.0}
 
+BROAD_PROPS = ["C01", "C05", "C08", "C10", "C13", "C15", "C20"]
 FUZZ_THOROUGH = {"C01": "decode", "C02": "decode", "C05": "decode", "C10": "decode", "C14": "decode", "C12": "reveal", "C13": "reveal"}
 FUZZ_SECONDS = int(os.environ.get("VERIF_FUZZ_SECONDS", "240"))
 FUZZ_DIR = os.path.join(ROOT, "fuzz")
@@ -714,6 +715,46 @@ def c19_extra(tier, seed, rundir, merged, hard, inconclusive, extra_cov, stages)
         hard.append({"signature": "C19:cross-process:result-depends-on-history", "build": "rel", "stream": "history", "idx": mismatches[0],
                      "detail": "%d call lists gave different results in two processes that had executed different calls before (first: case %d)" % (len(mismatches), mismatches[0]),
                      "witness": {"cases": mismatches[:10]}})
+    # (3b) broad workloads of other properties, with fds captured, under two partitions: reaches
+    # the rare paths those workloads are built to reach (every fault kind, every guard of reveal,
+    # every header word, every error rendering); any octet on fd 1/2 is the library's, and the
+    # merged outcome counters of the two partitions must be identical (each case's result is a
+    # function of its input only, whatever ran before it in the same process)
+    broad = {}
+    for bp in BROAD_PROPS:
+        runs = []
+        for nsh in (NSHARDS, 5):
+            sh_ = run_shards("rel", bp, "quick", seed, rundir, nshards=nsh, scale=1.0, watchdog=900)
+            m = Merged()
+            octets = [0, 0]
+            ok = True
+            for x in sh_:
+                octets[0] += x.out_bytes
+                octets[1] += x.err_bytes
+                if x.rc == 0 and x.report is not None:
+                    m.add("rel", x.report)
+                else:
+                    ok = False
+            runs.append((m, octets, ok, nsh))
+        (m1, o1, ok1, _), (m2, o2, ok2, _) = runs
+        entry = {"cases": m1.evaluations.get("rel", 0), "stdout_octets": o1[0] + o2[0], "stderr_octets": o1[1] + o2[1], "partitions_agree": None}
+        if entry["stdout_octets"] or entry["stderr_octets"]:
+            hard.append({"signature": "C19:fd-output:%s:during-%s-workload" % ("stdout" if entry["stdout_octets"] else "stderr", bp), "build": "rel", "stream": None, "idx": None,
+                         "detail": "the codec wrote %d octets to stdout and %d to stderr while running the %s workload (decode/encode/hide/reveal/error rendering on generated inputs)" % (entry["stdout_octets"], entry["stderr_octets"], bp),
+                         "witness": {"workload": bp}})
+        if ok1 and ok2:
+            b1, b2 = m1.buckets.get("rel", {}), m2.buckets.get("rel", {})
+            diff = sorted(k for k in set(b1) | set(b2) if b1.get(k) != b2.get(k))
+            sdiff = sorted(k for k in set(m1.sig_counts) | set(m2.sig_counts) if m1.sig_counts.get(k) != m2.sig_counts.get(k))
+            entry["partitions_agree"] = not diff and not sdiff
+            if diff or sdiff:
+                hard.append({"signature": "C19:cross-process:aggregate-differs:%s" % bp, "build": "rel", "stream": None, "idx": None,
+                             "detail": "the %s workload gave different outcome counters when the same cases were split over %d and over 5 processes (results depend on what ran before): %s" % (bp, NSHARDS, (diff + sdiff)[:6]),
+                             "witness": {"workload": bp, "differing_counters": (diff + sdiff)[:20]}})
+        else:
+            entry["partitions_agree"] = "not compared (a worker died; totality is that property's finding)"
+        broad[bp] = entry
+    extra_cov["broad_workloads"] = broad
     # (4) writable rl2tp:: symbols in the linked worker (M6)
     cmd, _ = build("rel")
     rc, out = sh(["nm", "-C", cmd[0]], timeout=120)
